@@ -98,6 +98,24 @@ def run(payload):
                     fail("copy", ops=ops)
         except Exception as e:
             fail("error", ops=ops, error=f"{type(e).__name__}: {e}")
+    # a storage reused for another kind of field after clear(clear_data_shape=True): frames come back as what was stored
+    grid2 = UnitGrid([4, 3])
+    kinds = {"scalar": lambda: ScalarField(grid2, rng.uniform(0, 1, grid2.shape)), "vector": lambda: VectorField(grid2, rng.uniform(0, 1, (2,) + grid2.shape)),
+             "collection": lambda: FieldCollection([ScalarField(grid2, 1.0), VectorField(grid2, 2.0)])}
+    for first, second in (("vector", "scalar"), ("collection", "scalar"), ("scalar", "vector"), ("scalar", "scalar")):
+        cases += 1
+        try:
+            st = MemoryStorage(write_mode="append")
+            f1 = kinds[first]()
+            st.start_writing(f1); st.append(f1, 0.0); st.end_writing()
+            st.clear(clear_data_shape=True)
+            f2 = kinds[second]()
+            st.start_writing(f2); st.append(f2, 1.0); st.end_writing()
+            back = st[0]
+            if type(back) is not type(f2) or back.data.shape != f2.data.shape or not np.array_equal(back.data, f2.data) or list(st.times) != [1.0]:
+                fail("reuse_after_clearing_the_data_shape", first=first, second=second, got_class=type(back).__name__, got_shape=list(back.data.shape), want_shape=list(f2.data.shape))
+        except Exception as e:
+            fail("error", ops=["reuse after clear(clear_data_shape=True)", first, second], error=f"{type(e).__name__}: {e}")
     # readonly
     st = MemoryStorage(write_mode="readonly")
     try:
